@@ -337,6 +337,11 @@ class Interp:
             o = rv.ops[0]
             if o.place is not None and not o.place[1]:
                 val = L.get(o.place[0])
+            elif o.place is not None and isinstance(L.get(o.place[0]), tuple) and L[o.place[0]][0] == "opt":
+                pj = [e for e in o.place[1] if e[0] != "*"]
+                tv = L[o.place[0]]
+                if len(pj) == 2 and pj[0][0] == "d" and pj[0][2] == tv[1] and pj[1][0] == "f" and pj[1][1] == 0:
+                    val = tv[2]
             elif o.kind == "const":
                 v = o.value()
                 if isinstance(v, bool):
@@ -364,6 +369,8 @@ class Interp:
             if not [e for e in pl[1] if e[0] != "*"]:
                 src = self.local_of_ref(body, model.Op({"c": {"l": pl[0], "p": ["*"] * len(pl[1])}})) if pl[1] else pl[0]
                 v = L.get(src)
+                if isinstance(v, tuple) and v[0] == "opt":
+                    v = v[1]
                 if isinstance(v, str):
                     vt = {n: int(d) for d, n in rv.j.get("variants", [])}
                     if v in vt:
@@ -525,6 +532,31 @@ class Interp:
         if re.search(r"Result::(ok|map|map_err|as_ref|as_mut)$|Option::(as_ref|as_mut|map)$", cp) and isinstance(v0, str) and not self._has_self_closure(x, t):
             r = {"ok": {"Ok": "Some", "Err": "None"}}.get(cp.split("::")[-1], {}).get(v0, v0)
             return fin([spec.freeze(H)], r)
+        # ---- `opt.as_ref().map(|s| s.field)` where opt is a tracked option and s.field a tracked enum: Some(current variant) / None ----------
+        if dest is not None and re.search(r"Option::map$", cp) and len(t.args) == 2:
+            recv_e = x.operand(t.args[0])
+            from .cfg import strip_plumbing, strip_ref
+            base = canon_path(strip_plumbing(strip_ref(recv_e)), al)
+            ov = spec.var_of(base) if base else None
+            clo = [sub[1] for sub in walk(x.operand(t.args[1])) if sub[0] == "closure" and sub[1] in self.prog.funcs]
+            if ov is not None and spec.vars[ov]["kind"] == "option" and len(clo) == 1:
+                cfn = self.prog.funcs[clo[0]]
+                cx = X(cfn.body)
+                rets = []
+                for blk_ in cfn.body.blocks:
+                    for st_ in blk_.stmts:
+                        if st_.k == "assign" and st_.lhs == (0, ()):
+                            rets.append(cx.rvalue(st_.rv, cx.depth))
+                if len(rets) == 1:
+                    # path of the returned place relative to the closure's element parameter (local 2)
+                    pname = cfn.body.names.get(2)
+                    rp = canon_path(rets[0], {pname: base} if pname else None)
+                    fv = spec.var_of(rp) if rp else None
+                    if fv is not None and spec.vars[fv]["kind"] == "enum" and not self._writes_tracked(cfn):
+                        if H[ov] == "None":
+                            return fin([spec.freeze(H)], ("opt", "None", None))
+                        if H[ov] is not None and H[fv] is not None:
+                            return fin([spec.freeze(H)], ("opt", "Some", H[fv]))
         # ---- tracked collections (kind 'vec'): clear / grow / pop ---------------------------------
         if t.args:
             pv = spec.var_of(canon_path(x.operand(t.args[0]), al))
@@ -627,6 +659,18 @@ class Interp:
                 frontier = nxt
             cur = out
         return fin(cur)
+
+    def _writes_tracked(self, cfn):
+        """closure body assigns through its arguments / calls anything (then it is not a pure projection)"""
+        for blk_ in cfn.body.blocks:
+            if blk_.cleanup:
+                continue
+            if blk_.term.k == "call":
+                return True
+            for st_ in blk_.stmts:
+                if st_.k == "assign" and st_.lhs[1]:
+                    return True
+        return False
 
     def _has_self_closure(self, x, t):
         for a in t.args:
